@@ -45,12 +45,14 @@ func (e *Env) call(fr *Frame, c *ssa.CallCommon, instr ssa.Value, st *State) Val
 	}
 	if c.IsInvoke() {
 		recv := e.get(fr, c.Value, st)
+		e.ghostAt(fr, "call", c.Method.Name(), append([]Value{recv}, args...), st)
 		return e.invoke(fr, recv, c.Method, args, rt, st)
 	}
 	switch f := c.Value.(type) {
 	case *ssa.Builtin:
 		return e.builtin(fr, f, c, args, rt, st)
 	case *ssa.Function:
+		e.ghostAt(fr, "call", f.Name(), args, st)
 		return e.callStatic(fr, f, nil, args, rt, st)
 	}
 	fv := e.get(fr, c.Value, st)
